@@ -51,9 +51,11 @@ const (
 	fComp = "comp.vuego"
 	fMain = "layouts/main.vuego"
 	fBase = "layouts/base.vuego"
+	fRel  = "main.vuego" // a layout named "main" NEXT TO the page: wins over layouts/main.vuego when present
+	fLess = "vars.less"  // @import-ed by the LESS style block of page variant 10 (engine option procLess)
 )
 
-var allFiles = []string{fPage, fComp, fMain, fBase}
+var allFiles = []string{fPage, fComp, fMain, fBase, fRel, fLess}
 
 const (
 	eLoadRender = "load-render"  // root.Load(f).Fill(data).Render(ctx, w)
@@ -74,6 +76,7 @@ type variant struct {
 	RenderOK bool   // body evaluates without error (given its dependencies are fine)
 	Layout   string // "layout:" named by the front-matter: "", "main", "base"
 	Include  bool   // body includes comp.vuego
+	Less     bool   // body has a <style type="text/css+less"> block importing vars.less
 }
 
 const inc = `<template include="comp.vuego"></template>`
@@ -92,7 +95,10 @@ var variants = map[string][]variant{
 		// 8, 9: the body rewrites front-matter keys in its root scope. Every render must start from
 		// the file's front-matter again ("visit 2", "hello!"), whatever earlier renders did.
 		8: {Content: "---\nn: 1\ngreeting: hello\n---\n" + `<template :n="n + 1" :greeting="greeting + '!'"></template><div data-m="page">P8 {{ greeting }} visit {{ n }} {{ x }}` + inc + `</div>`, LoadOK: true, RenderOK: true, Include: true},
-		9: {Content: "---\ntitle: T9\nlayout: main\nn: 5\n---\n" + `<div data-m="page">P9 <template :n="n * 2" :title="title + '+'"></template>{{ n }} {{ title }} {{ x }}` + inc + `</div>`, LoadOK: true, RenderOK: true, Layout: "main", Include: true},
+		// 10: a LESS style block whose CSS depends on the imported vars.less (compiled on every
+		// render when the LESS processor is registered; left alone otherwise)
+		10: {Content: "<style type=\"text/css+less\">\n@import \"vars.less\";\n.box {\n  color: @brand;\n}\n</style>\n" + `<div data-m="page" class="box">P10 {{ title }} {{ x }}` + inc + `</div>`, LoadOK: true, RenderOK: true, Include: true, Less: true},
+		9:  {Content: "---\ntitle: T9\nlayout: main\nn: 5\n---\n" + `<div data-m="page">P9 <template :n="n * 2" :title="title + '+'"></template>{{ n }} {{ title }} {{ x }}` + inc + `</div>`, LoadOK: true, RenderOK: true, Layout: "main", Include: true},
 	},
 	fComp: {
 		0: {Content: `<span data-m="comp">C0 {{ title }}</span>`, LoadOK: true, RenderOK: true},
@@ -106,6 +112,17 @@ var variants = map[string][]variant{
 		1: {Content: "---\nlayout: base\n---\n" + `<section data-m="main">M1 {{ title }}<div v-html="content"></div></section>`, LoadOK: true, RenderOK: true, Layout: "base"},
 		2: {Content: "---\nmainvar: MV2\n---\n" + `<article data-m="main">M2 {{ mainvar }}` + inc + `<div v-html="content"></div></article>`, LoadOK: true, RenderOK: true, Include: true},
 		3: {Content: "---\nlayout: {base\n---\n<b>bad3</b>"},
+	},
+	fRel: {
+		0: {Content: `<main data-m="rel"><h2>R0 {{ title }}</h2><div v-html="content"></div></main>`, LoadOK: true, RenderOK: true},
+		1: {Content: "---\nrelvar: RV1\n---\n" + `<section data-m="rel">R1 {{ relvar }} {{ title }}<div v-html="content"></div></section>`, LoadOK: true, RenderOK: true},
+		2: {Content: "---\nrelvar: [x\n---\n<b>bad2</b>"},
+	},
+	// a missing, unreadable or garbled import never fails a render (the variable stays unresolved)
+	fLess: {
+		0: {Content: "@brand: red;\n", LoadOK: true, RenderOK: true},
+		1: {Content: "@brand: blue;\n", LoadOK: true, RenderOK: true},
+		2: {Content: "@brand: #123456;\n@other: 1px;\n", LoadOK: true, RenderOK: true},
 	},
 	fBase: {
 		0: {Content: `<html><head><title>{{ title }}</title></head><body data-m="base">B0 <div v-html="content"></div></body></html>`, LoadOK: true, RenderOK: true},
@@ -136,6 +153,7 @@ type Op struct {
 	Dt     int    `json:"dt,omitempty"`
 	Entry  string `json:"entry,omitempty"`
 	Target string `json:"target,omitempty"`
+	Z      bool   `json:"z,omitempty"` // the write gives the file a ZERO mtime (time.Time{}: "no mtime", like embed.FS); Dt is ignored
 	D      int    `json:"d,omitempty"` // which data the render passes: 0..2 = {title "D<d>", x "X<d>"}, 3 = nil, 4 = empty map
 }
 
@@ -151,6 +169,16 @@ type Case struct {
 	// "" = the filesystem itself, "overlay-mixed" = Open-only upper layer over a lower layer
 	// (with Stat) that holds older versions of the same files.
 	Store string `json:"store,omitempty"`
+	// ZeroInit: the initial files report no modification time (zero time).
+	ZeroInit bool `json:"zero_init,omitempty"`
+}
+
+// toTime maps the model's mtime to the filesystem's: 0 is the zero time, not the Unix epoch.
+func toTime(mt int64) time.Time {
+	if mt == 0 {
+		return time.Time{}
+	}
+	return time.Unix(mt, 0)
 }
 
 type memfsFS = memfs.FS
@@ -161,6 +189,7 @@ func (o Op) isWrite() bool { return o.Op == "edit" || o.Op == "recreate" || o.Op
 type stats struct {
 	renders, asserted  int
 	skipSame, skipABA  int
+	skipZero           int // not compared: a dependency currently reports no mtime and the engine may hold other content of it
 	cacheHits          int
 	okBoth, errBoth    int
 	afterFailed        int // asserted renders that came after a failed render of the long-lived engine
@@ -240,7 +269,7 @@ func execute(c Case) (error, stats) {
 	}
 	fs := memfs.New()
 	for f, v := range c.Init {
-		fs.Write(f, variants[f][v].Content, time.Unix(t0, 0))
+		fs.Write(f, variants[f][v].Content, toTime(m.st[f].mt))
 	}
 	lower := newLower()
 	hook := &hookFS{m: fs}
@@ -262,7 +291,7 @@ func execute(c Case) (error, stats) {
 			}
 			switch {
 			case op.isWrite():
-				fs.Write(op.File, variants[op.File][op.V].Content, time.Unix(m.st[op.File].mt, 0))
+				fs.Write(op.File, variants[op.File][op.V].Content, toTime(m.st[op.File].mt))
 			case op.Op == "delete":
 				fs.Remove(op.File)
 			case op.Op == "block":
@@ -299,7 +328,7 @@ func execute(c Case) (error, stats) {
 		pres := map[string]preState{}
 		fire := func(f string) {
 			pres[f] = m.fire(f)
-			fs.Write(f, variants[f][m.st[f].v].Content, time.Unix(m.st[f].mt, 0))
+			fs.Write(f, variants[f][m.st[f].v].Content, toTime(m.st[f].mt))
 		}
 		if len(armed) > 0 {
 			hook.onOpen = func(name string) {
@@ -353,9 +382,12 @@ func execute(c Case) (error, stats) {
 		m.postRender(op.Entry, target, ri, wantErr == nil && modelOK)
 
 		if ri.ambiguous != "" {
-			if ri.viaSame {
+			switch {
+			case ri.viaZero:
+				s.skipZero++
+			case ri.viaSame:
 				s.skipSame++
-			} else {
+			default:
 				s.skipABA++
 			}
 			failedBefore = failedBefore || longFailed
@@ -451,6 +483,12 @@ func classify(c Case) (bool, []string) {
 	if s.skipABA > 0 {
 		cls = append(cls, "has-skip:mtime-returned")
 	}
+	if s.skipZero > 0 {
+		cls = append(cls, "has-skip:mtime-unknown(zero)")
+	}
+	if c.ZeroInit {
+		cls = append(cls, "init:no-mtimes")
+	}
 	if s.errBoth > 0 {
 		cls = append(cls, "has-failing-render")
 	}
@@ -493,6 +531,7 @@ func classify(c Case) (bool, []string) {
 		rec.Count("steps:render-err-both", s.errBoth)
 		rec.Count("steps:render-skipped-same-mtime-edit", s.skipSame)
 		rec.Count("steps:render-skipped-mtime-returned", s.skipABA)
+		rec.Count("steps:render-skipped-mtime-unknown(zero)", s.skipZero)
 		rec.Count("steps:render-answered-from-cache", s.cacheHits)
 		rec.Count("steps:render-overlapped-by-edit(not compared)", s.overlapped)
 		rec.Count("steps:edit-fired-right-after-the-engine-opened-the-file", s.firedDuring)
@@ -530,6 +569,7 @@ type letter struct {
 	dt    int
 	entry string
 	bad   bool
+	zero  bool
 }
 
 var alphabet = []letter{
@@ -563,14 +603,35 @@ var alphabetFS = append(append([]letter(nil), alphabet...),
 	letter{op: "unblock", file: fPage},
 	letter{op: "block", file: fMain},
 	letter{op: "unblock", file: fMain},
+	letter{op: "edit", file: fPage, zero: true}, // the page stops reporting an mtime
+	letter{op: "edit", file: fRel, dt: 1},       // creates the page-relative layout when absent
+	letter{op: "delete", file: fRel},
 )
 
+// alphabetLess: for the LESS engine option.
+var alphabetLess = []letter{
+	{op: "render", entry: eVueRender},
+	{op: "render", entry: eLoadRender},
+	{op: "render", entry: eVueFrag},
+	{op: "edit", file: fLess, dt: 1},
+	{op: "edit", file: fLess, dt: -1},
+	{op: "delete", file: fLess},
+	{op: "edit", file: fPage, dt: 1},
+	{op: "edit", file: fComp, dt: 1},
+}
+
 // the two alternating valid contents per file used by the enumeration
-var enumPair = map[string][2]int{fPage: {8, 9}, fComp: {1, 0}, fMain: {1, 0}, fBase: {0, 1}}
+var enumPair = map[string][2]int{fPage: {8, 9}, fComp: {1, 0}, fMain: {1, 0}, fBase: {0, 1}, fRel: {0, 1}, fLess: {1, 0}}
 var enumBad = map[string]int{fPage: 5, fComp: 3, fMain: 3, fBase: 2}
 
-func buildHistory(alpha []letter, init map[string]int, word []int, proc, store string) Case {
-	c := Case{Init: init, Proc: proc, Store: store}
+// engineOpt is one combination of the case-wide options.
+type engineOpt struct {
+	proc, store string
+	zeroInit    bool
+}
+
+func buildHistory(alpha []letter, init map[string]int, word []int, o engineOpt) Case {
+	c := Case{Init: init, Proc: o.proc, Store: o.store, ZeroInit: o.zeroInit}
 	writes := map[string]int{}
 	exists := map[string]bool{}
 	for f := range init {
@@ -600,20 +661,22 @@ func buildHistory(alpha []letter, init map[string]int, word []int, proc, store s
 				}
 			}
 			exists[l.file] = true
-			c.Ops = append(c.Ops, Op{Op: name, File: l.file, V: v, Dt: l.dt})
+			c.Ops = append(c.Ops, Op{Op: name, File: l.file, V: v, Dt: l.dt, Z: l.zero})
 		}
 	}
 	return c
 }
 
-// enumerate runs every history over alpha of length <= maxLen[i] for initial configuration i,
-// for each of the given processors and stores.
-func enumerate(t *testing.T, kind string, alpha []letter, maxLen []int, procs, stores []string) {
+// the two standard initial configurations
+var stdInits = []map[string]int{
+	{fPage: 9, fComp: 0, fMain: 0},           // A: page names layout main, no default layout
+	{fPage: 0, fComp: 0, fMain: 1, fBase: 0}, // B: page without layout, default layout present, main chains to base
+}
+
+// enumerate runs every history over alpha of length <= maxLen[i] from initial configuration
+// inits[i], for each of the given option combinations.
+func enumerate(t *testing.T, kind string, alpha []letter, inits []map[string]int, maxLen []int, opts []engineOpt) {
 	shard, shards := run.Shard()
-	inits := []map[string]int{
-		{fPage: 9, fComp: 0, fMain: 0},           // page names layout main, no default layout
-		{fPage: 0, fComp: 0, fMain: 1, fBase: 0}, // page without layout, default layout present, main chains to base
-	}
 	n := 0
 	complete := true
 	top := 0
@@ -631,21 +694,19 @@ func enumerate(t *testing.T, kind string, alpha []letter, maxLen []int, procs, s
 				if len(word) > maxLen[ii] {
 					continue
 				}
-				for _, proc := range procs {
-					for _, store := range stores {
-						n++
-						if n%shards != shard {
-							continue
-						}
-						c := buildHistory(alpha, init, word, proc, store)
-						if _, ids := sanitize(c, avoid); len(ids) > 0 {
-							rec.Excluded(ids[0])
-							continue
-						}
-						nt, cls := classify(c)
-						if !run.Each(rec, kind, c, nt, append(cls, kind), check) {
-							return false
-						}
+				for _, o := range opts {
+					n++
+					if n%shards != shard {
+						continue
+					}
+					c := buildHistory(alpha, init, word, o)
+					if _, ids := sanitize(c, avoid); len(ids) > 0 {
+						rec.Excluded(ids[0])
+						continue
+					}
+					nt, cls := classify(c)
+					if !run.Each(rec, kind, c, nt, append(cls, kind), check) {
+						return false
 					}
 				}
 			}
@@ -665,7 +726,7 @@ func enumerate(t *testing.T, kind string, alpha []letter, maxLen []int, procs, s
 	}
 	complete = rec2()
 	if complete {
-		rec.Exhaustive(fmt.Sprintf("%s: processors %q, stores %q: all histories over the %d-letter alphabet that end in a render: length 1..%d from configuration A (page names layout main, no default layout), length 1..%d from configuration B (page without layout, default layout present, main chains to base) (%d histories)", kind, procs, stores, len(alpha), maxLen[0], maxLen[1], n))
+		rec.Exhaustive(fmt.Sprintf("%s: options %+v: all histories over the %d-letter alphabet that end in a render, length <= %v from the %d initial configurations (%d histories)", kind, opts, len(alpha), maxLen, len(inits), n))
 	}
 }
 
@@ -679,14 +740,29 @@ func genCase(t *rapid.T) Case {
 	if rapid.IntRange(0, 3).Draw(t, "store") == 0 {
 		c.Store = storeOverlayMixed
 	}
+	if rapid.IntRange(0, 7).Draw(t, "no-mtimes-at-start") == 0 {
+		c.ZeroInit = true
+	}
 	blocked := map[string]bool{}
-	cur := map[string]int{fPage: -1, fComp: -1, fMain: -1, fBase: -1} // -1 = absent
+	cur := map[string]int{fPage: -1, fComp: -1, fMain: -1, fBase: -1, fRel: -1, fLess: -1} // -1 = absent
 	pick := func(label string, xs []int) int { return rapid.SampledFrom(xs).Draw(t, label) }
 	c.Init[fPage] = pick("init-page", []int{1, 8, 0, 9, 2, 3, 4, 7})
 	c.Init[fComp] = pick("init-comp", []int{0, 1, 2})
 	c.Init[fMain] = pick("init-main", []int{0, 1, 2})
 	if rapid.Bool().Draw(t, "init-base") {
 		c.Init[fBase] = pick("init-base-v", []int{0, 1})
+	}
+	if rapid.IntRange(0, 5).Draw(t, "init-rel") == 0 {
+		c.Init[fRel] = pick("init-rel-v", []int{0, 1})
+	}
+	if c.Proc == procLess {
+		// the LESS option is only interesting with the page that has a LESS block
+		if rapid.IntRange(0, 3).Draw(t, "less-page") > 0 {
+			c.Init[fPage] = 10
+		}
+		if rapid.IntRange(0, 4).Draw(t, "init-less") > 0 {
+			c.Init[fLess] = pick("init-less-v", []int{0, 1, 2})
+		}
 	}
 	for f, v := range c.Init {
 		cur[f] = v
@@ -696,7 +772,12 @@ func genCase(t *rapid.T) Case {
 	kinds := []string{"render", "render", "render", "render", "render", "render", "render-twice", "render-twice", "render-twice",
 		"edit", "edit", "edit", "edit", "edit", "edit", "edit", "edit", "edit", "invalid", "invalid", "delete", "delete",
 		"arm", "arm", "block", "unblock"}
-	fileW := []string{fPage, fPage, fPage, fPage, fComp, fComp, fMain, fMain, fBase}
+	fileW := []string{fPage, fPage, fPage, fPage, fComp, fComp, fMain, fMain, fBase, fRel}
+	if c.Proc == procLess {
+		fileW = []string{fPage, fPage, fComp, fMain, fLess, fLess, fLess, fLess, fLess}
+	}
+	// one write in eight leaves the file without an mtime (zero time)
+	zero := func() bool { return rapid.IntRange(0, 7).Draw(t, "no-mtime") == 0 }
 	dts := []int{1, 1, 1, 2, 0, 0, -1, -1, -2}
 	entriesW := []string{eVueRender, eVueRender, eVueRender, eVueRender, eLoadRender, eLoadRender, eRenderFile, eVueFrag}
 	broken := func() []string {
@@ -759,13 +840,13 @@ func genCase(t *rapid.T) Case {
 				v = good[(indexOf(good, v)+1)%len(good)]
 			}
 			cur[f] = v
-			c.Ops = append(c.Ops, Op{Op: name, File: f, V: v, Dt: rapid.SampledFrom(dts).Draw(t, "dt")})
+			c.Ops = append(c.Ops, Op{Op: name, File: f, V: v, Dt: rapid.SampledFrom(dts).Draw(t, "dt"), Z: zero()})
 		case "arm":
 			// an edit that is applied right after the engine has been handed the file's content
 			// during the next render that depends on the file
 			f := rapid.SampledFrom(fileW).Draw(t, "file")
 			v := pick("v", variantsWhere(f, true))
-			c.Ops = append(c.Ops, Op{Op: "arm", File: f, V: v, Dt: rapid.SampledFrom([]int{1, 1, 2, -1}).Draw(t, "dt")})
+			c.Ops = append(c.Ops, Op{Op: "arm", File: f, V: v, Dt: rapid.SampledFrom([]int{1, 1, 2, -1}).Draw(t, "dt"), Z: zero()})
 		case "block":
 			f := rapid.SampledFrom(fileW).Draw(t, "file")
 			blocked[f] = true
@@ -781,9 +862,12 @@ func genCase(t *rapid.T) Case {
 			c.Ops = append(c.Ops, Op{Op: "unblock", File: f})
 		case "invalid":
 			f := rapid.SampledFrom(fileW).Draw(t, "file")
+			if len(variantsWhere(f, false)) == 0 {
+				f = fPage // (an import has no invalid form: garbage just leaves the variable unresolved)
+			}
 			v := pick("v", variantsWhere(f, false))
 			cur[f] = v
-			c.Ops = append(c.Ops, Op{Op: "invalid", File: f, V: v, Dt: rapid.SampledFrom(dts).Draw(t, "dt")})
+			c.Ops = append(c.Ops, Op{Op: "invalid", File: f, V: v, Dt: rapid.SampledFrom(dts).Draw(t, "dt"), Z: zero()})
 		default:
 			f := rapid.SampledFrom(fileW).Draw(t, "file")
 			cur[f] = -1
@@ -821,13 +905,21 @@ func TestProp(t *testing.T) {
 	defer run.Finish(t, rec)
 	run.Witnesses(rec, prop, replay)
 
-	plain := []string{""}
-	enumerate(t, "enum", alphabet, run.Pick([]int{4, 3}, []int{5, 5}), []string{procNone}, plain)
+	enumerate(t, "enum", alphabet, stdInits, run.Pick([]int{4, 3}, []int{5, 5}), []engineOpt{{}})
 	// the same with a registered node processor that edits its nodes in place
-	enumerate(t, "enum-proc", alphabet, run.Pick([]int{3, 2}, []int{4, 3}), allProcs[1:], plain)
-	// with filesystem events (edit overlapping a load, file unreadable / readable again), on the
-	// plain filesystem and on the mixed-capability overlay
-	enumerate(t, "enum-fs", alphabetFS, run.Pick([]int{3, 2}, []int{4, 3}), []string{procNone}, []string{"", storeOverlayMixed})
+	var procOpts []engineOpt
+	for _, p := range []string{procAttrPrefix, procAttrAppend, procText, procRemove, procAll} {
+		procOpts = append(procOpts, engineOpt{proc: p})
+	}
+	enumerate(t, "enum-proc", alphabet, stdInits, run.Pick([]int{3, 2}, []int{4, 3}), procOpts)
+	// with filesystem events (edit overlapping a load, file unreadable / readable again, file
+	// without mtime, page-relative layout appearing / disappearing), on the plain filesystem,
+	// on the mixed-capability overlay, and starting from files that report no mtime
+	enumerate(t, "enum-fs", alphabetFS, stdInits, run.Pick([]int{3, 2}, []int{4, 3}),
+		[]engineOpt{{}, {store: storeOverlayMixed}, {zeroInit: true}})
+	// vuego's LESS processor with a style block importing vars.less
+	enumerate(t, "enum-less", alphabetLess, []map[string]int{{fPage: 10, fComp: 0, fMain: 0, fLess: 0}}, run.Pick([]int{4}, []int{5}),
+		[]engineOpt{{proc: procLess}})
 	run.Rapid(t, rec, "history", genCase, classify, check)
 }
 
